@@ -433,7 +433,33 @@ def run_check(pid: str, tier: str, root_seed: int, workers=None, budget_override
                         det["diverged"].append((i, dg, theirs.get(i)))
             except Exception as e:
                 det["error"] = repr(e)[:300]
-        if det["diverged"] or det.get("error"):
+        if det["diverged"] and not det.get("error"):
+            # Is it the simulator that is not deterministic, or does the CODE UNDER TEST consult object addresses
+            # (e.g. an id()-based tie-break among equal keys - legal, reviewer variant C16 r3v6)?  The same runs twice
+            # with address-space randomisation off and one worker: equal layouts, so equal digests iff addresses are
+            # the only thing the executions depend on besides the case.
+            try:
+                import platform
+                import shutil
+                idx = sorted(i for i, _, _ in det["diverged"])
+                lo, hi = idx[0], idx[-1]
+                cmd = [os.path.join(core.VERIF, "check"), "selftest", "digests", pid, tier, str(lo), str(hi - lo + 1)]
+                if shutil.which("setarch"):
+                    cmd = ["setarch", platform.machine(), "-R"] + cmd
+                    env = dict(os.environ, GSIM_HASHSEED="12345", VERIF_WORKERS="1", VERIF_SEED=str(root_seed))
+                    two = []
+                    for _ in range(2):
+                        p = subprocess.run(cmd, capture_output=True, text=True, env=env, timeout=900)
+                        two.append([ln for ln in p.stdout.splitlines() if ln.startswith("{")][-1])
+                    if two[0] == two[1]:
+                        det["address_dependent"] = True
+            except Exception as e:
+                det["error2"] = repr(e)[:300]
+        if det.get("address_dependent"):
+            say(f"[{pid}] determinism probe: {len(det['diverged'])} of {det['checked']} re-executed runs differ between "
+                f"processes but are identical under a pinned address layout (setarch -R): the code under test consults "
+                f"object addresses; replay files of this tree reproduce only under the same layout")
+        elif det["diverged"] or det.get("error"):
             exit_code = 2
             core.out(f"HARNESS-ERROR property={pid} determinism probe: {det}")
         else:
